@@ -1074,6 +1074,11 @@ impl<C: CellType> OptRebuild<'_, C> {
     ) -> HashMap<isize, Expr<C>> {
         let mut linear = HashMap::new();
         for var in vars {
+            // The pending operations see the value after the already emitted writes.
+            // Only without such writes do they see exactly `initial + i * inc`.
+            if sub_state.written.contains_key(&var) {
+                continue;
+            }
             if let Some(complete) = sub_state.get(var) {
                 if let Some(inc) = complete.inc_of(var) {
                     if inc.variables().all(|x| constant.contains(&x)) {
